@@ -98,9 +98,10 @@ CHECKS = {
                           "activation_failed_timeout", "activation_failure_several_waiters", "start_already_running", "start_unknown_service", "service_exit_status_0", "held_message_of_vanished_sender_dropped"], safety_prop="C10"), companion="C19H"),
     "C14": dict(simbus("C14", "for each sampled (history, operation) pair generated from mix(VERIF_SEED, i): one fault-free execution counts the allocations n the bus makes while processing the "
                   "operation, then the whole plan is re-executed n times with allocation k = 0..n-1 of that operation failing (exhaustive in k, sampled in history and operation), and again with "
-                  "a second failure gap allocations after the first (hook H5): every (k, gap <= 10) for operations of at most 14 allocations, (even k, gap in {0,3,9}) for operations up to 120; an "
+                  "a second failure gap allocations after the first (hook H5): every (k, gap <= 10) for operations of at most 14 allocations, (even k, gap in {0,3,9}) for operations up to 120; "
+                  "operations include ReloadConfig with a different configuration file in place (long operations: when n > 400 the last 150 allocations and a seeded sample of 250 others, all in the thorough tier); an "
                   "evaluation is one (history, operation, k) execution; distinct = distinct trace hash; non-trivial = the injected failure fired and the outcome was compared with both admissible worlds",
-                  probes=["oom_outcome_complete", "oom_outcome_nomemory", "oom_retried", "h2_retry_after_oom", "oom_pair_runs", "oom_second_fired"], safety_prop="C14", level="fault_enumeration"), max_runs=None, companion="C14L"),
+                  probes=["oom_outcome_complete", "oom_outcome_nomemory", "oom_retried", "h2_retry_after_oom", "oom_pair_runs", "oom_second_fired", "reload_failed_while_parsing", "reload_failed_after_parsing", "config_reloaded"], safety_prop="C14", level="fault_enumeration"), max_runs=None, companion="C14L"),
 }
 
 # ----------------------------------------------------------------------------- MANIFEST texts
@@ -173,9 +174,14 @@ MANIFEST_TEXT = {
                "the budget, coverage folded into this evidence file): a codec-generated message and one operation - demarshal, copy, marshal, a header edit, or construction of the whole "
                "message through the public API - repeated with allocation k failing for every k; the operation must report out-of-memory or yield exactly the bytes the codec "
                "prescribes, a prior message must be byte-identical afterwards (construction excepted: the documentation says a half-built message is to be discarded), nothing may "
-               "leak, and the retry must succeed. Match-rule parsing is reached through AddMatch; configuration-file parsing under allocation failure is not covered.",
+               "leak, and the retry must succeed. Match-rule parsing is reached through AddMatch. Configuration-file parsing is reached through ReloadConfig with a different file in place (other limits, "
+               "another policy, a new service directory with service files): a failure while the file is parsed must leave limits, policy and activatable names as they were (probed by "
+               "behaviour before the retry) and the retry must put all of the new configuration in force; a link-time wrapper of bus_config_load() tells the oracle in which phase the "
+               "request failed (failures after parsing are the listed 'half reload' finding: compared again only after the retry, read-only requests still exercised in between). "
+               "Every failure is attributed to the operation and to the call site of the failing allocation(s) (symbolised DBUS_MALLOC_BACKTRACES of the pinned replay), listed findings "
+               "are matched per operation and site, and the enumeration is continued behind every reported fault point so that one finding does not shadow the later points of the same operation.",
                "DESIGN.md section 4 C14", "deterministic re-execution with exhaustive enumeration of the failing allocation index per sampled (history, operation)",
-               note=_SIMBUS_NOTE + " Exhaustive in k for each sample; histories and operations are sampled. Seven genuine OOM-atomicity defects of the daemon are listed in known_findings.json and reported as KNOWN-FINDING; two library defects found by the companion were repaired (b09978c, 45a3606)."),
+               note=_SIMBUS_NOTE + " Exhaustive in k for each sample; histories and operations are sampled. Genuine OOM-atomicity defects of the daemon that need a redesign are listed in known_findings.json and reported as KNOWN-FINDING; those with a small repair were repaired (library: b09978c, 45a3606; configuration reload: 525987f, 289a01b, de263d5, 1624f70, 1cd3dbb, a66579e)."),
     "C01": _mt("Seeded search over byte streams through the real connection loader (DBusServer + accepted DBusConnection, the path the property names first): 0-6 structurally generated "
                "valid messages of every type / header-field / nesting shape in both byte orders, targeted boundary shapes, optionally one single-site corruption (structural: serial 0, "
                "bad version, duplicate / wrong-typed / missing / zero-code field, bad path / interface / member / bus name, bad UTF-8, boolean 2 alone and inside arrays, body-signature "
